@@ -176,6 +176,38 @@ func RunTwice(c *Case) (first, second *Result, inputChanged string) {
 // ExecOpts: the execution options (and the global set-up they need) of the case's formatter mode
 func (c *Case) ExecOpts() (opts []z.ExecOption, restore func()) { return c.execOpts() }
 
+// CtxValues: the WithCtxValue pairs this case passes besides those of its formatter mode
+func (c *Case) CtxValues() [][2]string {
+	switch c.ID % 5 {
+	case 1:
+		return [][2]string{{"k1", fmt.Sprintf("v%d", c.ID)}}
+	case 2:
+		return [][2]string{{"k1", "first"}, {"k2", "b"}, {"k1", "last"}}
+	case 3:
+		return [][2]string{{"k2", "only"}}
+	}
+	return nil
+}
+
+// fmtCtxValues: the context values the formatter mode passes (execOpts)
+func (c *Case) fmtCtxValues() (out [][2]string) {
+	switch {
+	case strings.HasPrefix(c.Fmt, "i18nh:"):
+		parts := strings.SplitN(c.Fmt, ":", 3)
+		if len(parts) == 3 && parts[2] != "" {
+			for _, kv := range strings.Split(parts[2], ",") {
+				k, l, _ := strings.Cut(kv, "=")
+				out = append(out, [2]string{k, l})
+			}
+		}
+	case strings.HasPrefix(c.Fmt, "i18n:"):
+		if l := strings.TrimPrefix(c.Fmt, "i18n:"); l != "-" {
+			out = append(out, [2]string{"lang", l})
+		}
+	}
+	return
+}
+
 func (c *Case) execOpts() (opts []z.ExecOption, restore func()) {
 	restore = func() {}
 	switch {
@@ -223,6 +255,19 @@ func runOnOpt(schema z.ZogSchema, c *Case, rec *Recorder, data any, hook bool) (
 	ltm := func(l z.ZogIssueList) map[string][]Iss { rawList = l; return listToMap(l) }
 	opts, restore := c.execOpts()
 	defer restore()
+	if hook {
+		// context values of this execution: those of the formatter mode plus the case's own
+		// (a pure function of its id; a key given twice keeps the last value)
+		kvs := c.fmtCtxValues()
+		for _, kv := range c.CtxValues() {
+			opts = append(opts, z.WithCtxValue(kv[0], kv[1]))
+			kvs = append(kvs, kv)
+		}
+		rec.CtxExpect = map[string]string{}
+		for _, kv := range kvs {
+			rec.CtxExpect[kv[0]] = kv[1]
+		}
+	}
 	if hook {
 		p.VerifFieldHook = func(path, key string) {
 			if _, ok := rec.Order[path]; !ok {
